@@ -8,6 +8,8 @@ import (
 	"os"
 	"path/filepath"
 	"strings"
+	"sync"
+	"time"
 
 	"github.com/flosch/pongo2/v6"
 )
@@ -167,6 +169,11 @@ func runC11(r *run) {
 		// the same flat composition through every loader pongo2 ships, on a real directory
 		for i := 0; i < 40; i++ {
 			emit(caseT{"realloaders", []string{fmt.Sprint(i)}})
+		}
+		// several compilations (and lazy includes) of templates of ONE set at the same time that
+		// reference the same files: each gives what it gives alone
+		for i := 0; i < 12; i++ {
+			emit(caseT{"conccompile", []string{fmt.Sprint(i)}})
 		}
 		// pongo2's own loaders' path arithmetic against the model's
 		for _, base := range []string{"", "a.tpl", "d/a.tpl", "d/e/a.tpl", "/r/a.tpl", "./d/a.tpl", "d/../a.tpl"} {
@@ -368,7 +375,97 @@ func execMissingRel(r *run, c caseT) {
 	}
 }
 
+// slowLoader takes its time for the shared files, so that compilations overlap inside them
+type slowLoader struct {
+	files map[string]string
+}
+
+func (l *slowLoader) Abs(base, name string) string { return filepath.Join(filepath.Dir(base), name) }
+func (l *slowLoader) Get(path string) (io.Reader, error) {
+	c, ok := l.files[path]
+	if !ok {
+		return nil, errors.New("not found: " + path)
+	}
+	if strings.HasPrefix(path, "shared") {
+		time.Sleep(3 * time.Millisecond)
+	}
+	return strings.NewReader(c), nil
+}
+
+func execConcCompile(r *run, c caseT) {
+	var i int
+	fmt.Sscanf(c.args[0], "%d", &i)
+	files := map[string]string{
+		"shared_part.tpl": "P{{ v }}{% include \"shared_leaf.tpl\" %}", "shared_leaf.tpl": "L", "shared_base.tpl": "<{% block b %}b{% endblock %}{% include \"shared_leaf.tpl\" %}>",
+		"shared_lib.tpl": "{% macro m(x) export %}[{{ x }}]{% endmacro %}",
+	}
+	pages := []string{"{% include \"shared_part.tpl\" %}", "{% include \"shared_part.tpl\" with v=1 %}", "{% extends \"shared_base.tpl\" %}{% block b %}c{% endblock %}", "{% import \"shared_lib.tpl\" m %}{{ m(1) }}",
+		"{% ssi \"shared_part.tpl\" parsed %}", "{% set n = \"shared_part.tpl\" %}{% include n %}", "{% extends \"shared_base.tpl\" %}{% block b %}{% include \"shared_part.tpl\" %}{% endblock %}",
+		"{% include \"shared_leaf.tpl\" %}{% include \"shared_part.tpl\" %}"}
+	const k = 8
+	for pi := 0; pi < k; pi++ {
+		files[fmt.Sprintf("page%d.tpl", pi)] = pages[(pi+i)%len(pages)]
+	}
+	render := func(set *pongo2.TemplateSet, pi int) string {
+		var tpl *pongo2.Template
+		var err error
+		name := fmt.Sprintf("page%d.tpl", pi)
+		switch i % 3 {
+		case 0:
+			tpl, err = set.FromFile(name)
+		case 1:
+			tpl, err = set.FromCache(name)
+		default:
+			tpl, err = set.FromString(files[name])
+		}
+		if err != nil {
+			return "cerr:" + err.Error()
+		}
+		out, xerr := tpl.Execute(pongo2.Context{"v": "V"})
+		if xerr != nil {
+			return "xerr:" + xerr.Error()
+		}
+		return "ok:" + out
+	}
+	want := make([]string, k)
+	for pi := range want {
+		want[pi] = render(pongo2.NewSet("alone", &slowLoader{files}), pi)
+	}
+	set := pongo2.NewSet("together", &slowLoader{files})
+	set.Debug = i%2 == 1
+	got := make([]string, k)
+	var wg sync.WaitGroup
+	start := make(chan struct{})
+	for pi := 0; pi < k; pi++ {
+		wg.Add(1)
+		go func(pi int) {
+			defer wg.Done()
+			defer func() {
+				if p := recover(); p != nil {
+					got[pi] = "panic:" + fmt.Sprint(p)
+				}
+			}()
+			<-start
+			got[pi] = render(set, pi)
+		}(pi)
+	}
+	close(start)
+	wg.Wait()
+	id := r.emit(c.op, c.args, "conccompile")
+	r.nontrivial("conccompile" + c.args[0])
+	for pi := range want {
+		if got[pi] != want[pi] {
+			r.reject(id, "a template compiled while others of the same set were being compiled gave something else than alone", map[string]any{"page": files[fmt.Sprintf("page%d.tpl", pi)], "alone": want[pi], "together": got[pi]})
+			return
+		}
+	}
+}
+
 func execC11(r *run, c caseT) {
+	if c.op == "conccompile" {
+		execConcCompile(r, c)
+		return
+	}
 	if c.op == "missingrel" {
 		execMissingRel(r, c)
 		return
